@@ -777,7 +777,7 @@ func (i *c13Inst) Key() string {
 		body = []byte("unmarshalable:" + p)
 	}
 	b.WriteString(rep.Hash(string(body)))
-	b.WriteString("|" + i.doc.VerifNotesDump() + "|" + strings.Join(i.doc.VerifPartNames(), ",") + "|" + rep.Hash(i.doc.VerifRelDump()) + "|" + i.lastSaved)
+	b.WriteString("|" + i.doc.VerifNotesDump() + "|" + strings.Join(i.doc.VerifPartNames(), ",") + "|" + rep.Hash(i.doc.VerifRelDump()) + "|" + i.lastSaved + "|" + rep.Hash(i.doc.VerifShallowState()))
 	return b.String()
 }
 
